@@ -209,7 +209,7 @@ def run(tier):
     pool = core.Pool(0)
     hist = []
     try:
-        pool.run([(MOD, "job_deep", {})], into=t)
+        pool.run([(MOD, "job_deep", {}), ("mc.positional", "job", {"pid": "C15"})], into=t)
         for kind, n in (("mixin", 3), ("light", 3), ("node", 4), ("symmix", 4)) + ((("mixin", 4), ("light", 4), ("symmix", 5)) if tier == "thorough" else ()):
             states = forest.discover(pool, kind, n, {"read": False, "nonnode": False, "extras": False}, False)
             before = t.c["primed_histories"]
@@ -226,5 +226,5 @@ def run(tier):
                 "first, one mutation, then one walk in isolation (stale-cache histories); non-trivial = start != end" % (nmax, nshapes, fmax),
         "bounds": {"max_nodes": nmax, "forest_nodes": fmax, "inputs": len(items), "partially_primed_histories": hist},
     }
-    return {"tally": t, "coverage": cov, "guards": ("nontrivial", "different_trees", "up_and_down", "primed_histories", "deep_chain_walks"),
+    return {"tally": t, "coverage": cov, "guards": ("positional_calls", "nontrivial", "different_trees", "up_and_down", "primed_histories", "deep_chain_walks"),
             "assumptions": ["bounded tree sizes"]}
